@@ -40,11 +40,10 @@ func (v Var) packageQualifier(pkg *types.Package) string {
 
 func varName(vr *types.Var, suffix string) string {
 	name := vr.Name()
-	if name != "" && name != "_" {
-		return name + suffix
+	if name == "" || name == "_" {
+		name = varNameForType(vr.Type())
 	}
-
-	name = varNameForType(vr.Type()) + suffix
+	name += suffix
 
 	switch name {
 	case "mock", "callInfo", "break", "default", "func", "interface", "select", "case", "defer", "go", "map", "struct",
